@@ -6,6 +6,9 @@ ids = [p['id'] for p in props]
 E = 'exploration'; M = 'model_checking'; F = 'fault_enumeration'
 # id: (level, technique, level text, level_note, design_ref)
 checks = {
+ 'C39': (M, 'stateless model checking of the real Connection under a controlled scheduler: exhaustive enumeration of all schedules up to a preemption bound and all select tie-breaks, with happens-before state caching; per-execution oracle on awaits, wire log and Close',
+         'x/jsonrpc2 (conn.go, serve.go, frame.go, jsonrpc2.go) is compiled against the virtual runtime (chan/select/go/sync/atomic/context rewritten at build time). Twelve scenarios through the public API over an in-memory pipe with a scripted peer: concurrent calls, Call||Close, Call||disconnect, blocking handler||cancel||Close, ErrAsyncResponse+Respond||Close, two connections calling back, Notify||Close, unknown/duplicate responses, reused request id, write failure. Every schedule with <=1 (quick) / <=2 (thorough) preemptions is executed; each Await must return exactly once with its own answer or an error, no internal panic, responses per id <= requests per id, Close never returns while a handler runs, nothing stays blocked.',
+         'Sequential consistency at synchronisation operations; the two retire/cancel map loops iterate in sorted order; the connection-state-model (BFS) sub-check of the design was not built.', '§2 C39'),
  'C40': (M, 'stateless model checking of the real package under a controlled scheduler: exhaustive enumeration of all schedules up to a preemption bound with happens-before state caching; per-execution linearizability check (porcupine) + liveness',
          'x/watcher/changes.go is compiled against the virtual runtime (sync.Mutex/Cond -> vsync, the map iteration in Fetch -> explorer-owned choice). Four producer/consumer scenarios; every schedule with <=1 (quick) / <=2 (thorough) preemptions and every Cond.Signal / map-order choice is executed; each history is checked against a set model with porcupine v1.3.0 and for a fetcher asleep with a pending change.',
          'Scheduling points at synchronisation operations only (sequential consistency); the explorer owns mutex hand-off, cond wake-up choice and map iteration order; scenarios have <=3 producers, <=3 consumers, <=3 directories.', '§2 C40'),
